@@ -135,3 +135,23 @@ Definition kf_C55 (i : val) : Z :=
     | None => 0
     end
   end.
+
+(* executable well-formedness: op 1: decodable, distinct names, sizes < 2^31 (always true for lists in memory, stated
+   for the theorem); op 2: decodable, parameter sizes < 2^31, the reply lies in the modelled sub-language, and the
+   decidable side condition meta_ok (every variable the specification expects is among the computed ones: checked
+   by evaluation, it is the part of the central theorem that is not proved symbolically) *)
+Definition sizes_ok (ps : list (bytes * bytes)) : bool :=
+  forallb (fun kv => (blen (fst kv) <? 2^31) && (blen (snd kv) <? 2^31)) ps.
+Definition meta_ok (q : freq) : bool :=
+  forallb (fun e => existsb (pair_eqb e) (meta_pairs q)) (spec_meta q).
+Definition wf_C55 (i : val) : bool :=
+  match dec_C55 i with
+  | Some (ps, _, _) => sizes_ok ps && distinct_keys ps
+  | None =>
+    match dec2_C55 i with
+    | Some (q, _, resp) =>
+      sizes_ok (meta_pairs q) && meta_ok q &&
+      (let '(st, code) := client_stream resp in match parse_reply st code with Some _ => true | None => false end)
+    | None => false
+    end
+  end.
